@@ -67,14 +67,14 @@ def rows_of(obs):
         judge = [j for j in o["judge"] if j not in ("peers", "repeat")]
         rows.append({"id": o["id"], "dir": fw["dir"], "mode": fw.get("mode", "cmd"), "events": fw["events"], "parse_err": fw.get("err", ""),
                      "src": slim_nodes(o["src"]), "dst": slim_nodes(o["dst"]), "final": slim_nodes(o["final"]), "extra": o["extra"],
-                     "result": o["result"], "opts": o["opts"], "rules": o["rules"], "judge": judge})
+                     "result": o["result"], "opts": o["opts"], "rules": o["rules"], "judge": judge, "ioerr": o.get("ioerr", 0)})
         fw2 = o.get("fullwire2")
         if fw2 and o.get("result2") == "ok":
             # the immediately repeated run: the same specification, started from the destination the first run left
             # (so its requests are exactly what the update rule says about THAT tree - none with -t)
             rows.append({"id": SECOND + o["id"], "dir": fw2["dir"], "mode": fw2.get("mode", "cmd"), "events": fw2["events"], "parse_err": fw2.get("err", ""),
                          "src": slim_nodes(o["src"]), "dst": slim_nodes(o["final"]), "final": slim_nodes(o["final2"]), "extra": o["extra"],
-                         "result": "ok", "opts": o["opts"], "rules": o["rules"], "judge": judge})
+                         "result": "ok", "opts": o["opts"], "rules": o["rules"], "judge": judge, "ioerr": o.get("ioerr", 0)})
     return rows
 
 
